@@ -4,17 +4,22 @@ import PysphVerif.Lemmas.CodegenSort
 import PysphVerif.Lemmas.CodegenClosure
 import PysphVerif.Lemmas.CodegenWiring
 import PysphVerif.Lemmas.CodegenGroups
+import PysphVerif.Lemmas.CodegenOpts
 /-!
 # C02 — compiled equations compute what the Python equation source says
 
 Property theorems only (helper lemmas: `Lemmas/CodegenSort.lean`,
-`Lemmas/CodegenClosure.lean`, `Lemmas/CodegenWiring.lean`, `Lemmas/CodegenGroups.lean`).  They are about
+`Lemmas/CodegenClosure.lean`, `Lemmas/CodegenWiring.lean`, `Lemmas/CodegenGroups.lean`,
+`Lemmas/CodegenOpts.lean`).  They are about
 * the table `Gen/Precomp.lean`, regenerated from `equation.py::precomputed_symbols()`
   and `docs/source/design/equations.rst` on every run, and
 * the model `Model/Codegen.lean` of `sort_precomputed`, `Group._setup_precomputed`,
   `MegaGroup._make_data`, the pointer / declaration / scratch-vector set-up and the call
   sites of the group callables (`_compute_group_map`, `get_condition_call`, `get_pre_call`,
-  `get_post_call`) of `acceleration_eval_cython_helper.py`.
+  `get_post_call`) of `acceleration_eval_cython_helper.py`, and
+* the model `Model/CodegenOpts.lean` of the destination loop limits (`get_dest_array_setup`,
+  `get_parallel_range`: `Group(start_idx=, stop_idx=, real=)`) and of the attribute declarations
+  of the equation wrapper classes (`get_equation_wrappers`, compyle `detect_type`).
 What transpiled *user* code computes (compyle, Cython, g++) is outside every model
 and is carried by differential execution in `harness/c02.py` (testing).
 -/
@@ -294,5 +299,132 @@ example : DistinctObjects sameNameGroups ∧
        ⟨.pre, ⟨2, some 2⟩, some ⟨2, some 2⟩⟩,
        ⟨.post, ⟨2, none⟩, some ⟨2, none⟩⟩] :=
   ⟨by unfold DistinctObjects; decide, by decide⟩
+
+/-! ## 6. the methods of a group run for the destination indices the group asks for
+
+`Group(start_idx=a, stop_idx=b, real=r)`: every loop of the block of a destination runs over
+`range(D_START_IDX, NP_DEST, 1)` with the two limits the generator emits. -/
+
+/-- For every option value (integer — 0 and negative ones included —, name of a
+property/constant, `None`), every destination and every run-time state: the indices the
+generated loops visit are exactly the documented `range(start, stop)`. -/
+theorem dest_range_is_documented_range (σ : RtEnv) (dest : Name) (real : Bool) (start : StartIdx)
+    (stop : StopIdx) (i : Int) :
+    i ∈ loopIndices σ dest real start stop ↔
+      docStart σ dest start ≤ i ∧ i < docStop σ dest real stop := by
+  unfold loopIndices
+  rw [mem_pyRange]
+  cases start <;> cases stop <;> rfl
+
+/-- each index is visited once, in increasing order -/
+theorem dest_range_length (σ : RtEnv) (dest : Name) (real : Bool) (start : StartIdx) (stop : StopIdx) :
+    (loopIndices σ dest real start stop).length =
+      (docStop σ dest real stop - docStart σ dest start).toNat := by
+  unfold loopIndices
+  rw [pyRange_length]
+  cases start <;> cases stop <;> rfl
+
+/-- `stop_idx` "works like a range stop parameter": a stop at or below the start — the integer
+0 with the default start in particular — leaves the group without any destination particle -/
+theorem stop_at_or_below_start_runs_nothing (σ : RtEnv) (dest : Name) (real : Bool)
+    (start : StartIdx) (stop : StopIdx) (h : docStop σ dest real stop ≤ docStart σ dest start) :
+    loopIndices σ dest real start stop = [] := by
+  unfold loopIndices
+  apply pyRange_eq_nil
+  cases start <;> cases stop <;> exact h
+
+theorem stop_zero_runs_nothing (σ : RtEnv) (dest : Name) (real : Bool) :
+    loopIndices σ dest real (.num 0) (.num 0) = [] :=
+  stop_at_or_below_start_runs_nothing σ dest real _ _ (Int.le_refl 0)
+
+/-- the defaults: all (real) particles of the destination, each once -/
+theorem default_limits_run_all (σ : RtEnv) (dest : Name) (real : Bool) :
+    loopIndices σ dest real (.num 0) .all =
+      (List.range (σ.size dest real)).map (fun (k : Nat) => (k : Int)) := by
+  unfold loopIndices
+  exact pyRange_zero _
+
+/-- Why `is None` and not the truth value: a generator that tests `not stop_idx` agrees with
+the real one on every option but the integer 0 — and there it runs the group over ALL particles
+of the destination instead of none. -/
+theorem falsy_stop_runs_everything :
+    let σ : RtEnv := { first := fun _ _ => 0, size := fun _ _ => 3 }
+    loopIndicesFalsy σ "fluid" true (.num 0) (.num 0) = [0, 1, 2] ∧
+    loopIndices σ "fluid" true (.num 0) (.num 0) = [] := by decide
+
+theorem falsy_stop_differs_only_at_zero (dest : Name) (real : Bool) (stop : StopIdx)
+    (h : stop ≠ .num 0) : stopExprFalsy dest real stop = stopExpr dest real stop := by
+  cases stop with
+  | all => rfl
+  | ref p => rfl
+  | num n =>
+    have : n ≠ 0 := fun hn => h (by rw [hn])
+    simp [stopExprFalsy, stopExpr, this]
+
+/-- non-vacuity: a limit given by a constant of the destination, a frozen front of 2 particles -/
+example :
+    let σ : RtEnv := { first := fun d p => if d = "fluid" ∧ p = "n_fixed" then 2 else 7,
+                       size := fun _ _ => 5 }
+    loopIndices σ "fluid" true (.num 0) (.ref "n_fixed") = [0, 1] ∧
+    loopIndices σ "fluid" false (.ref "n_fixed") .all = [2, 3, 4] := by decide
+
+/-! ## 7. an equation object is re-created in C with attribute types that hold its values
+
+`self.<var> = <Cls>(**equations[i].__dict__)`: every instance of a class NAME goes through the
+one `cdef class` generated for that name; a `cdef public long` attribute silently truncates a
+Python float. -/
+
+/-- (repaired generator, `declsMerge`) For every list of equation objects and every instance
+in it: a numeric scalar attribute is declared with a C type that holds the value of THAT
+instance — whatever the other instances of the same class name carry (the representative
+must carry a numeric scalar there too). -/
+theorem wrapper_decl_holds_every_instance (insts : List Inst) (e : Inst) (he : e ∈ insts)
+    (a : Name) (t : PyTag) (n : Nat) (hta : tagIn e a = some t) (ht : t.rank = some n)
+    (r : Inst) (hr : lastOf insts e.cls = some r) (u : PyTag) (hu : (a, u) ∈ r.attrs)
+    (m : Nat) (hm : u.rank = some m) :
+    ∃ ty, (a, ty) ∈ declsMerge insts e.cls ∧
+      ty = detectType (mergedTag (instsOf insts e.cls) a u) ∧ holds ty t = true := by
+  refine ⟨_, ?_, rfl, ?_⟩
+  · unfold declsMerge
+    rw [hr]
+    exact List.mem_map.mpr ⟨(a, u), hu, rfl⟩
+  · obtain ⟨c, hc, hle⟩ := mergedTag_rank_ge_mem (instsOf insts e.cls) a u m hm e
+      (mem_instsOf insts e he) t hta n ht
+    exact holds_of_rank_le _ _ c n hc ht hle
+
+/-- where all instances of a name agree on the type of every attribute (what the existing
+generator silently assumes) the repaired and the existing generator emit the same class -/
+theorem wrapper_policies_agree_when_uniform (insts : List Inst) (c : Name)
+    (h : ∀ r, lastOf insts c = some r → ∀ kv ∈ r.attrs, ∀ e ∈ instsOf insts c,
+      tagIn e kv.1 = some kv.2 ∨ tagIn e kv.1 = none) :
+    declsMerge insts c = declsLast insts c := by
+  unfold declsMerge declsLast
+  cases hl : lastOf insts c with
+  | none => rfl
+  | some r =>
+    apply List.map_congr_left
+    intro kv hkv
+    rw [mergedTag_of_uniform _ _ _ (h r hl kv hkv)]
+
+/-- Why the representative must be widened (finding on the pinned tree): typed from the LAST
+instance alone, `[Scale(k=0.5), Scale(k=1)]` declares `long k`, which does not hold 0.5. -/
+theorem last_instance_policy_truncates :
+    let insts : List Inst := [⟨"Scale", [("k", .float)]⟩, ⟨"Scale", [("k", .int)]⟩]
+    declsLast insts "Scale" = [("k", "long")] ∧ holds "long" .float = false ∧
+    declsMerge insts "Scale" = [("k", "double")] := by decide
+
+/-- Why the class text must be generated per evaluator: with a process-wide memo keyed by the
+class NAME the second evaluator of a process gets the declarations made for the first —
+`Scale(k=2)` first, then `Scale(k=0.5)` is re-created with `long k`. -/
+theorem class_name_cache_goes_stale :
+    cachedRun [[⟨"Scale", [("k", .int)]⟩], [⟨"Scale", [("k", .float)]⟩]] [] =
+      [[("Scale", [("k", "long")])], [("Scale", [("k", "long")])]] ∧
+    wrapperDecls declsLast [⟨"Scale", [("k", .float)]⟩] = [("Scale", [("k", "double")])] := by
+  decide
+
+example : wrapperDecls declsMerge
+    [⟨"B", [("ca", .float), ("dest", .str)]⟩, ⟨"A", [("on", .bool)]⟩,
+     ⟨"B", [("ca", .int), ("dest", .str)]⟩] =
+    [("A", [("on", "int")]), ("B", [("ca", "double"), ("dest", "str")])] := by decide
 
 end PysphVerif.Props.C02
